@@ -287,6 +287,8 @@ class HttpParser(abc.ABC, Generic[_MsgT]):
         self._payload = None
         self._payload_parser: HttpPayloadParser | None = None
         self._payload_has_more_data = False
+        # set once a message announced that the connection closes after it
+        self._should_close = False
         self._auto_decompress = auto_decompress
         self._limit = limit
         self._headers_parser = HeadersParser(max_field_size, self.lax)
@@ -347,7 +349,6 @@ class HttpParser(abc.ABC, Generic[_MsgT]):
         # read, the field limit applies, whichever call delivers the field.
         max_line_length = self.max_field_size if self._lines else self.max_line_size
 
-        should_close = False
         while start_pos < data_len or self._payload_has_more_data:
             # read HTTP message (request/response line + headers), \r\n\r\n
             # and split by lines
@@ -370,7 +371,7 @@ class HttpParser(abc.ABC, Generic[_MsgT]):
                     continue
 
                 if pos >= start_pos:
-                    if should_close:
+                    if self._should_close:
                         raise BadHttpMessage("Data after `Connection: close`")
 
                     # line found
@@ -517,7 +518,7 @@ class HttpParser(abc.ABC, Generic[_MsgT]):
                         messages.append((msg, payload))
                         if self._max_msg_queue_size:
                             self._msg_in_flight += 1
-                        should_close = msg.should_close
+                        self._should_close = msg.should_close
                 else:
                     self._tail = data[start_pos:]
                     # A bare LF here means CRLF was required:
